@@ -13,6 +13,7 @@ import (
 
 	"verif/internal/astx"
 	"verif/internal/gen"
+	"verif/internal/reflex"
 )
 
 // ---------------------------------------------------------------------------
@@ -145,6 +146,10 @@ func c18Inputs(c *Ctx, nMut int) []c18Case {
 	for _, s := range stateProbes {
 		cases = append(cases, c18Case{"split", s}, c18Case{"statements", s}, c18Case{"expr", s})
 	}
+	for i, w := range reflexReserved() {
+		sp := oddCase(w, i)
+		cases = append(cases, c18Case{"query", "SELECT s." + sp + " FROM s"}, c18Case{"statement", "SELECT a FROM t " + sp + " a"}, c18Case{"expr", sp})
+	}
 	for _, ll := range gen.LongLiterals() {
 		if len(ll.Text) < 20000 {
 			cases = append(cases, c18Case{ll.Entry, ll.Text})
@@ -206,14 +211,40 @@ func RunC18(c *Ctx) {
 	cases := c18Inputs(c, c.Pick(1500, 20000))
 	tabBefore := tableDigest()
 	// (1a) sequential reference digests
+	// Every shard is a fresh process and evaluates the set in a different order (forward, backward, shard-specific
+	// permutations); the digests are combined by case index, so all shards must still agree. A cache that is filled by
+	// whichever call comes first makes them disagree.
 	ref := make([]uint64, len(cases))
-	all := fnv.New64a()
-	for i, cs := range cases {
+	order := make([]int, len(cases))
+	for i := range order {
+		order[i] = i
+	}
+	switch {
+	case c.Shard%4 == 1:
+		for i, j := 0, len(order)-1; i < j; i, j = i+1, j-1 {
+			order[i], order[j] = order[j], order[i]
+		}
+	case c.Shard%4 >= 2:
+		order = gen.NewRand(77, uint64(c.Shard)).Perm(len(cases))
+	}
+	for _, i := range order {
+		cs := cases[i]
 		c.Journal(cs.entry, cs.input)
 		ref[i], _ = digestOf(cs.entry, cs.input)
-		fmt.Fprintf(all, "%x;", ref[i])
 		c.Eval()
 		c.Distinct(cs.entry + "\x00" + cs.input)
+	}
+	all := fnv.New64a()
+	for i := range cases {
+		fmt.Fprintf(all, "%x;", ref[i])
+	}
+	// per-case digests in blocks, so that a disagreement can be narrowed down
+	for b := 0; b*256 < len(cases); b++ {
+		h := fnv.New64a()
+		for i := b * 256; i < (b+1)*256 && i < len(cases); i++ {
+			fmt.Fprintf(h, "%x;", ref[i])
+		}
+		c.SetAdd(fmt.Sprintf("agree:block%03d", b), fmt.Sprintf("%x", h.Sum64()))
 	}
 	// fresh-process determinism: every shard computes the same list; the driver compares
 	c.SetAdd("agree:all_digests", fmt.Sprintf("%x/%d", all.Sum64(), len(cases)))
@@ -374,4 +405,17 @@ func ReplayC18(c *Ctx, entry, input string) {
 		c.Violate("c18:concurrent-result-differs", entry, input, fmt.Sprintf("%d concurrent calls returned a different result", diff))
 	}
 	c.Eval()
+}
+
+func reflexReserved() []string { return reflex.ReservedWords }
+
+// oddCase gives a word an unusual but fixed mixed-case spelling.
+func oddCase(w string, k int) string {
+	b := []byte(w)
+	for i := range b {
+		if (i+k)%2 == 0 && b[i] >= 'A' && b[i] <= 'Z' {
+			b[i] += 32
+		}
+	}
+	return string(b)
 }
